@@ -224,6 +224,9 @@ pub fn check_expiry(logs: &[OpRec], counts: &mut Counts, findings: &mut Vec<Find
         let source = match by_token.get(&value) { Some(w) => *w, None => continue };
         if let Outcome::Write { op, .. } = &source.outcome {
             let ttl = match op { WriteOp::Upsert { remove_ttl: true, .. } => None, other => other.ttl() };
+            let moved = logs.iter().any(|u| matches!(&u.outcome, Outcome::Write { op: WriteOp::Upsert { key: k, value: None, ttl: t, remove_ttl: r, .. }, .. } if *k == key && (t.is_some() || *r)) && u.call < rec.ret
+                && match &u.outcome { Outcome::Write { acked_at, .. } => acked_at.map(|a| a > source.call).unwrap_or(true), _ => false });
+            if moved { counts.inc("reads_whose_deadline_may_have_been_moved_by_a_valueless_upsert"); continue; }
             if let (Some(ttl), true, true) = (ttl, source.clk_done != 0, rec.clk_call != 0) {
                 counts.inc("reads_of_values_with_a_known_deadline");
                 let latest_expiry = source.clk_done as u128 + ttl.as_nanos();
@@ -314,6 +317,9 @@ fn support_shape(rec: &OpRec) -> String { match &rec.outcome { Outcome::Write { 
 pub fn check_ack_outcomes(logs: &[OpRec], during_shutdown: bool, counts: &mut Counts, findings: &mut Vec<Finding>, witness: &dyn Fn(&[&OpRec]) -> J, panic_mark: usize) {
     for rec in logs {
         if let Outcome::Write { op, status, error, panicked, .. } = &rec.outcome {
+            if let (Some(message), WriteOp::Upsert { value: None, .. }) = (panicked, op) {
+                if message.contains("value must be specified") { counts.inc("valueless_upserts_that_met_an_absent_key"); continue; }
+            }
             if let Some(message) = panicked {
                 let site = rt::panics_since(panic_mark).iter().rev().find(|p| p.message == *message).map(rt::panic_site).unwrap_or_else(|| rt::classify_panic(message).to_string());
                 findings.push(Finding { props: vec!["C17"], signature: format!("C17/panic-in-caller/{}/concurrent/{}", op.shape(), site),
@@ -471,6 +477,10 @@ struct MixedCfg {
     sut: SutCfg,
     perturb: (u64, u64, u64),
     forced: Option<(Site, u64)>,
+    /// some upserts carry no value (every second case)
+    valueless: bool,
+    /// every fourth case: 1-2 keys, at least 8 threads, dominated by value-less upserts, deletes and puts (maximal contention on one entry)
+    churn: bool,
 }
 
 fn mixed_cfg(focus: &str, seed: u64, index: u64, clean: bool) -> MixedCfg {
@@ -498,12 +508,25 @@ fn mixed_cfg(focus: &str, seed: u64, index: u64, clean: bool) -> MixedCfg {
     };
     let perturb = *rng.pick(&[(0u64, 0u64, 0u64), (30, 10, 2), (100, 30, 5), (10, 60, 10), (200, 0, 0)]);
     let forced = if rng.chance(1, 3) { Some((*rng.pick(&STRETCH_SITES), rng.range(1500, 5000))) } else { None };
-    MixedCfg { forced, threads, keys, ops: rng.range(40, 250) as usize, pressure, ttl: rng.chance(1, 2), clean_weights, with_shutdown: false, sut, perturb }
+    let churn = index % 4 == 0;
+    let (threads, keys) = if churn { (threads.max(8), rng.range(1, 2)) } else { (threads, keys) };
+    MixedCfg { forced, valueless: index % 2 == 0, churn, threads, keys, ops: rng.range(40, 250) as usize, pressure, ttl: rng.chance(1, 2), clean_weights, with_shutdown: false, sut, perturb }
 }
 
 fn key_weight(key: u64) -> i64 { 25 + (key * 7 % 20) as i64 }
 
 fn gen_write(rng: &mut Rng, client: &mut Client, cfg: &MixedCfg, key: u64) -> WriteOp {
+    // now and then an upsert that carries no value (time-to-live only / weight only / remove time-to-live): legal only while the
+    // key exists; if it has just vanished the documented assertion ("value must be specified") fires in the caller, which is
+    // not held against the cache
+    if cfg.valueless && rng.chance(1, 10) {
+        let weight = if cfg.clean_weights { key_weight(key) } else { rng.range(25, 60) as i64 };
+        return match rng.below(3) {
+            0 if cfg.ttl => WriteOp::Upsert { key, value: None, weight: Some(weight), ttl: Some(Duration::from_nanos(*rng.pick(&[NS, 2 * NS, 5 * NS, 3600 * NS]))), remove_ttl: false },
+            1 if cfg.ttl => WriteOp::Upsert { key, value: None, weight: Some(weight), ttl: None, remove_ttl: true },
+            _ => WriteOp::Upsert { key, value: None, weight: Some(weight), ttl: None, remove_ttl: false },
+        };
+    }
     let value = client.token(key);
     let ttl = || Duration::from_nanos(*[0u64, 1, NS / 2, NS, 2 * NS, 5 * NS, 3600 * NS].get((value % 7) as usize).unwrap());
     if cfg.clean_weights {
@@ -543,7 +566,7 @@ fn run_mixed(focus: &'static str, seed: u64, index: u64, clean: bool) -> CaseOut
     let case = J::obj().with("engine", J::s("conc")).with("scenario", J::s("mixed")).with("focus", J::s(focus)).with("seed", J::Int(seed as i128))
         .with("index", J::Int(index as i128)).with("threads", J::u(cfg.threads)).with("keys", J::Int(cfg.keys as i128)).with("ops_per_thread", J::u(cfg.ops))
         .with("pressure", J::Bool(cfg.pressure)).with("ttl", J::Bool(cfg.ttl)).with("same_explicit_weight_per_key", J::Bool(cfg.clean_weights))
-        .with("perturbation_permille_yield_spin_sleep", J::s(format!("{:?}", cfg.perturb))).with("forced_delay_site_us", J::s(format!("{:?}", cfg.forced))).with("config", cfg.sut.to_json());
+        .with("perturbation_permille_yield_spin_sleep", J::s(format!("{:?}", cfg.perturb))).with("forced_delay_site_us", J::s(format!("{:?}", cfg.forced))).with("valueless_upserts", J::Bool(cfg.valueless)).with("churn_on_one_or_two_keys", J::Bool(cfg.churn)).with("config", cfg.sut.to_json());
     prep(rt::rng_for(seed, index, 7).next(), cfg.perturb.0, cfg.perturb.1, cfg.perturb.2, false);
     let panic_mark = rt::panic_count();
     let sut = Sut::new(cfg.sut.clone());
@@ -580,7 +603,14 @@ fn run_mixed(focus: &'static str, seed: u64, index: u64, clean: bool) -> CaseOut
                     let variant = rng.below(7) as usize;
                     client.read(&cache, key, variant);
                 } else {
-                    let op = gen_write(&mut rng, &mut client, &cfg, key);
+                    let op = if cfg.churn {
+                        let weight = if cfg.clean_weights { key_weight(key) } else { rng.range(25, 60) as i64 };
+                        match rng.below(13) {
+                            0..=4 => WriteOp::Upsert { key, value: None, weight: Some(weight), ttl: None, remove_ttl: false },
+                            5..=8 => WriteOp::Delete { key },
+                            _ => { let value = client.token(key); WriteOp::PutW { key, value, weight } }
+                        }
+                    } else { gen_write(&mut rng, &mut client, &cfg, key) };
                     client.write(&cache, op);
                     if rng.chance(1, 2) { client.settle_all(&marks); }
                 }
@@ -927,7 +957,7 @@ fn run_sweep_reput(focus: &'static str, seed: u64, index: u64) -> CaseOut {
     sched().forced_hits.store(0, Ordering::SeqCst);
     sched().force_delay(Site::WeightDeleteAfterRemove, 12_000, 1);
     sut.advance((1 + shards as u64) * NS); // a later second that maps to the shard of the expiry
-    let stalled = rt::wait_until("the sweeper to reach the stretched site", || sched().forced_hits.load(Ordering::SeqCst) >= 1).is_ok();
+    let stalled = rt::poll_until(Duration::from_millis(300), || sched().forced_hits.load(Ordering::SeqCst) >= 1);
     let mut window = false;
     let mut second = 0;
     let mut upserter_log: Vec<OpRec> = Vec::new();
@@ -982,6 +1012,146 @@ fn run_sweep_reput(focus: &'static str, seed: u64, index: u64) -> CaseOut {
     if let Err(waited) = sut.finish() { if findings.is_empty() { push_stuck(&mut findings, "shutdown after a sweep/re-put race", waited, &case); } }
     counts.inc("cases");
     CaseOut { findings, counts, signature, nontrivial: window, sample }
+}
+
+// ------------------------------------------------------------------------------------------------ scenario: sweeper stretched on one key while another key's state changes (C01 / C09 / C10 / C03 directed)
+
+/// Variants (index % 3):
+/// 0 "full cache": one key whose weight is the whole cache expires; the sweeper is stretched in the middle of evicting it while
+///   the worker admits another key of the same weight. The total must never exceed the limit (C01), whatever the put is answered.
+/// 1 "ttl removed during the sweep": the sweeper is stretched (holding the TTL shard) on an expired key J while a client removes
+///   (or extends) the time-to-live of a live key K registered in the same shard; later the clock passes K's old deadline: K must
+///   still be readable (C09 / C10).
+/// 2 "capacity probe": worker adds race sweeper deletes with the stretch in the add / delete paths; afterwards a put that
+///   exactly fills the cache according to the weights really held must be accepted without evicting anything (C03 / C06).
+fn run_sweep_other_key(focus: &'static str, seed: u64, index: u64) -> CaseOut {
+    let mut rng = rt::rng_for(seed, index, 0x50C);
+    let variant = index % 3;
+    let shards = 2usize;
+    let max_weight: i64 = match variant { 0 => 100, 2 => 400, _ => 100_000 };
+    let sutcfg = SutCfg { counters: 100, capacity: 16, max_weight, shards, cmd_buf: 8, pool: 1, buf: 2, tick: Duration::from_millis(1),
+        weight_mode: WeightMode::Custom, hash_mode: HashMode::Default, start_ns: rt::START_NS };
+    let sites_delete = [Site::WeightDeleteAfterRemove, Site::WeightDeleteHoldingTotal, Site::SweepBeforeEvict];
+    let sites_add = [Site::WeightAddBetween, Site::WeightDeleteAfterRemove, Site::WeightDeleteHoldingTotal, Site::AdmissionAfterSpaceCheck];
+    let site = if variant == 2 { sites_add[((index / 3) % 4) as usize] } else { sites_delete[((index / 3) % 3) as usize] };
+    let case = J::obj().with("engine", J::s("conc")).with("scenario", J::s("sweep-other-key")).with("variant", J::Int(variant as i128)).with("focus", J::s(focus))
+        .with("seed", J::Int(seed as i128)).with("index", J::Int(index as i128)).with("stretched_site", J::s(format!("{:?}", site))).with("config", sutcfg.to_json());
+    let mut counts = Counts::default();
+    let mut findings = Vec::new();
+    prep(1, 0, 0, 0, false);
+    let panic_mark = rt::panic_count();
+    let sut = Sut::new(sutcfg);
+    let marks = sut.marks;
+    let mut client = Client::new(1);
+    let mut nontrivial = false;
+    let witness_case = case.clone();
+    let witness = |recs: &[&OpRec]| witness_of(&witness_case, recs);
+    match variant {
+        0 => {
+            let v = client.token(1);
+            client.write(&sut.cache, WriteOp::PutWTtl { key: 1, value: v, weight: max_weight, ttl: Duration::from_secs(1) });
+            client.settle_all(&marks);
+            sched().forced_hits.store(0, Ordering::SeqCst);
+            sched().force_delay(site, 8_000, 1);
+            sut.advance(3 * NS);
+            let stalled = rt::poll_until(Duration::from_millis(300), || sched().forced_hits.load(Ordering::SeqCst) >= 1);
+            let v2 = client.token(2);
+            client.write(&sut.cache, WriteOp::PutW { key: 2, value: v2, weight: max_weight });
+            client.settle_all(&marks);
+            if stalled && sched().forced_left.load(Ordering::SeqCst) == 0 { nontrivial = true; counts.inc("puts_admitted_while_the_sweeper_was_mid_eviction"); }
+        }
+        1 => {
+            let (vj, vk) = (client.token(1), client.token(2));
+            client.write(&sut.cache, WriteOp::PutWTtl { key: 1, value: vj, weight: 30, ttl: Duration::from_secs(1) });
+            // K expires two seconds later: same shard (2 shards), not yet expired when J is swept
+            client.write(&sut.cache, WriteOp::PutWTtl { key: 2, value: vk, weight: 30, ttl: Duration::from_secs(3) });
+            client.settle_all(&marks);
+            sched().forced_hits.store(0, Ordering::SeqCst);
+            sched().force_delay(site, 8_000, 1);
+            sut.advance(3 * NS); // J (expiry +1 s) is past, K (expiry +3 s) is exactly at its deadline (not past); the current second maps to their shard
+            let stalled = rt::poll_until(Duration::from_millis(300), || sched().forced_hits.load(Ordering::SeqCst) >= 1);
+            // the sweeper now holds that TTL shard; change K's registration from a client
+            let extend = index % 2 == 0;
+            let op = if extend { WriteOp::Upsert { key: 2, value: None, weight: Some(30), ttl: Some(Duration::from_secs(1000)), remove_ttl: false } }
+                else { WriteOp::Upsert { key: 2, value: None, weight: Some(30), ttl: None, remove_ttl: true } };
+            client.write(&sut.cache, op);
+            client.settle_all(&marks);
+            if stalled { nontrivial = true; counts.inc("ttl_changes_made_while_the_sweeper_held_the_shard"); }
+            sched().clear_forced();
+            // cross K's old deadline on both shards
+            let _ = sut.quiesce().and_then(|_| sut.settle_fresh());
+            for _ in 0..(shards + 2) { sut.advance(NS); if sut.settle().is_err() { break; } }
+            let got = sut.cache.get(&2);
+            counts.inc("reads_after_the_old_deadline_of_a_key_whose_ttl_was_changed");
+            if got != Some(vk) {
+                findings.push(Finding { props: vec!["C09", "C10", "C08"], signature: format!("C10/key-lost-at-its-old-deadline/{}", if extend { "ttl-extended" } else { "ttl-removed" }),
+                    detail: format!("key 2 had its time-to-live {} by an acknowledged put_or_update while the sweeper was busy in the same TTL shard; after the clock passed the old deadline it reads {:?}", if extend { "extended" } else { "removed" }, got),
+                    witness: witness(&client.log.iter().collect::<Vec<_>>()), inconclusive: false });
+            }
+        }
+        _ => {
+            // resident keys, some with a TTL that is about to pass; the worker keeps adding while the sweeper deletes
+            for key in 1..=4u64 {
+                let v = client.token(key);
+                client.write(&sut.cache, WriteOp::PutWTtl { key, value: v, weight: 40, ttl: Duration::from_secs(1 + key % 2) });
+            }
+            client.settle_all(&marks);
+            sched().forced_hits.store(0, Ordering::SeqCst);
+            sched().force_delay(site, rng.range(2000, 6000), 4);
+            sut.advance(2 * NS + 1);
+            for key in 10..16u64 {
+                let v = client.token(key);
+                client.write(&sut.cache, WriteOp::PutW { key, value: v, weight: 20 });
+                if key % 2 == 0 { sut.advance(NS); }
+            }
+            client.settle_all(&marks);
+            sched().clear_forced();
+            if sched().forced_hits.load(Ordering::SeqCst) > 0 { nontrivial = true; }
+            if sut.quiesce().and_then(|_| sut.settle_fresh()).is_ok() {
+                // capacity probe: according to the weights really held this put fits exactly
+                let snapshot = sut.snapshot();
+                let held: i64 = snapshot.charged.iter().map(|e| e.3).sum();
+                let before: BTreeSet<u64> = snapshot.stored.iter().map(|e| e.0).collect();
+                let room = max_weight - held;
+                if room > 0 {
+                    let v = client.token(99);
+                    client.write(&sut.cache, WriteOp::PutW { key: 99, value: v, weight: room });
+                    client.settle_all(&marks);
+                    counts.inc("capacity_probes");
+                    let status = match &client.log.last().unwrap().outcome { Outcome::Write { status: Some(Waited::Ready(s)), .. } => Some(*s), _ => None };
+                    let after: BTreeSet<u64> = sut.snapshot().stored.iter().map(|e| e.0).collect();
+                    let lost: Vec<u64> = before.difference(&after).copied().collect();
+                    if status != Some(CommandStatus::Accepted) || !lost.is_empty() {
+                        findings.push(Finding { props: vec!["C03", "C06", "C05"], signature: "C03/capacity-lost-after-sweep-race".into(),
+                            detail: format!("the keys held weigh {} of {}; a put of weight {} (an exact fit) was answered {:?} and evicted {:?}: capacity is silently lost", held, max_weight, room, status.map(|s| status_name(&s)), lost),
+                            witness: witness(&client.log.iter().collect::<Vec<_>>()), inconclusive: false });
+                    }
+                }
+            }
+        }
+    }
+    sched().clear_forced();
+    counts.add("forced_long_delays_hit", sched().forced_hits.swap(0, Ordering::Relaxed));
+    let logs = client.log.clone();
+    check_ack_outcomes(&logs, false, &mut counts, &mut findings, &witness, panic_mark);
+    weight_bound_findings(&mut findings, &case, &format!("sweep-other-key/variant={}", variant));
+    match sut.quiesce().and_then(|_| sut.settle_fresh()) {
+        Err(waited) => push_stuck(&mut findings, "quiescence after a sweep race", waited, &case),
+        Ok(()) => {
+            let all: Vec<&OpRec> = logs.iter().collect();
+            check_quiescent_accounting(&sut, &format!("sweep-other-key/variant={}", variant), &mut counts, &mut findings, witness(&all));
+            let total = sut.cache.total_weight_used();
+            if total < 0 || total > max_weight {
+                findings.push(Finding { props: vec!["C01"], signature: format!("C01/total-outside-bounds/observed-at-api/sweep-other-key/variant={}", variant),
+                    detail: format!("total_weight_used() is {} with limit {}", total, max_weight), witness: witness(&all), inconclusive: false });
+            }
+        }
+    }
+    let signature = fnv_step(fnv_step(0x50C, index % 36), variant);
+    let sample = case.clone().with("operations", J::Arr(logs.iter().take(10).map(|r| r.to_json()).collect()));
+    if let Err(waited) = sut.finish() { if findings.is_empty() { push_stuck(&mut findings, "shutdown after a sweep race", waited, &case); } }
+    counts.inc("cases");
+    CaseOut { findings, counts, signature, nontrivial, sample }
 }
 
 // ------------------------------------------------------------------------------------------------ scenario: a client held in the middle of its call (C04 / C07 / C08 / C05 directed)
@@ -1178,6 +1348,7 @@ pub fn run(args: &Args) -> Shard {
             "update-sweep" => run_update_sweep(focus, seed, index),
             "held-client" => run_held_client(focus, seed, index),
             "sweep-reput" => run_sweep_reput(focus, seed, index),
+            "sweep-other-key" => run_sweep_other_key(focus, seed, index),
             "burst" => crate::conc2::run_burst(focus, seed, index),
             "shutdown" => crate::conc2::run_shutdown(focus, seed, index),
             "stall" => crate::conc2::run_stall(focus, seed, index),
